@@ -840,6 +840,32 @@ var ttCorpus = []ttCorpusDoc{
 		}
 		return ""
 	}},
+	// necessity of the composite theorem's side conditions (coq/Proofs/TtmlRenderNeeded.v), replayed on the library
+	{"bare_text_no_leading_blank_needed: the leading blank of bare text is taken for indentation", `<tt><body><div><p begin="1s" end="2s"> x</p></div></body></tt>`, func(v tvDoc) string {
+		if len(v.Items) != 1 || len(v.Items[0].Lines) != 1 || len(v.Items[0].Lines[0]) != 1 || v.Items[0].Lines[0][0].Text != "x" {
+			return "lines " + showLines(v.Items[0].Lines)
+		}
+		return ""
+	}},
+	{"one_line_needed: an empty p reads as one empty line", `<tt><body><div><p begin="1s" end="2s"></p></div></body></tt>`, func(v tvDoc) string {
+		if len(v.Items) != 1 || len(v.Items[0].Lines) != 1 || len(v.Items[0].Lines[0]) != 0 {
+			return "lines " + showLines(v.Items[0].Lines)
+		}
+		return ""
+	}},
+	{"distinct_ids_needed: a duplicate style identifier leaves one style", `<tt><head><styling><style id="a"/><style id="a"/></styling></head><body><div><p begin="1s" end="2s">x</p></div></body></tt>`, func(v tvDoc) string {
+		if len(v.Styles) != 1 {
+			return fmt.Sprintf("%d styles", len(v.Styles))
+		}
+		return ""
+	}},
+	{"positive_rate_needed: a frame count without a frame rate contributes nothing", `<tt><body><div><p begin="25f" end="2s">x</p></div></body></tt>`, func(v tvDoc) string {
+		if v.Items[0].St != 0 {
+			return fmt.Sprintf("begin read as %d", v.Items[0].St)
+		}
+		return ""
+	}},
+	{"closed_references_needed: p naming an undefined style", `<tt><body><div><p begin="1s" end="2s" style="z">x</p></div></body></tt>`, nil},
 	{"p without begin", ttWrap("", `<p end="2s">x</p>`), nil},
 	{"unknown style", ttWrap("", `<p begin="1s" end="2s" style="nope">x</p>`), nil},
 	{"unknown parent", ttWrap(`<head><styling><style xml:id="a" style="nope"/></styling></head>`, `<p begin="1s" end="2s">x</p>`), nil},
